@@ -22,6 +22,7 @@ import Proofs.DdsFuel
 import Proofs.DdsNorm
 import Proofs.DdsDimWitness
 import Proofs.DdsOrder
+import Proofs.DdsSrc
 namespace Pydap.C07
 open Pydap Pydap.Dds
 
@@ -236,5 +237,111 @@ example : skelDs permGridWitness ≠
 example : ∃ d₁ s, parseDds (ftextDs fsample) = .ok d₁ ∧ printDs d₁ = .ok s :=
   let ⟨d₁, s, h1, h2, _⟩ := C07_foreign_reprint fsample fsample_wf
   ⟨d₁, s, h1, h2⟩
+
+/-! ### the tie by translation: the *source text* of every line the DDS printer yields is the model's text
+
+`Pydap.Gen.src_dds_*` (PydapModel/Generated/DdsSrc.lean) are the MiniPy trees of the module constant `INDENT = " " * 4`, of
+the top-level `yield "…".format(…)` statements of `dds(DatasetType)`, `_sequencetype`, `_structuretype`, `_gridtype`,
+`_basetype` (in source order, `@line0`, `@line1`, …) and of everything `_basetype` does before its `yield` (the record
+axes dropped unless the data is a `DummyData`, the three forms of the shape text), regenerated from responses/dds.py on
+every run by `harness/py2lean.py`.  `"…{name}…".format(name=e)` is read as the concatenation of its literal pieces and
+its arguments.  Inputs: `level`, `var.name`, `INDENT` (its own block), and for `_basetype`: the table entry
+`NUMPY_TO_DAP2_TYPEMAP[var.dtype.char]` (`@type`), `var.shape`, `var.dims`, `sequence`, `isinstance(var.data, DummyData)`,
+and the two joins over generators `"".join(map("[{0[0]} = {0[1]}]".format, zip(var.dims, shape)))` (`@dims_text`) and
+`"".join("[{0}]".format(len) for len in shape)` (`@anon_text`), which are outside the fragment.  Not carried: the
+recursion over the children (the `for` loops over `dds(child, …)` — the order and the levels are the correspondence
+run's business), `.encode("ascii")`. -/
+
+open MiniPy DdsSrc in
+/-- `INDENT` is four blanks, and `level * INDENT` is the model's `indent level` -/
+theorem C07_source_indent (k : Nat) :
+    runItem [] Gen.src_dds_indent "INDENT" = .ok (.str indentCodes) ∧
+    (List.replicate k indentCodes).flatten = codesOf (indent k) :=
+  ⟨src_dds_indent_eq, indent_codes k⟩
+
+open MiniPy DdsSrc in
+/-- `_structuretype`: its two lines are the text `printT` puts around the members, at every level and for every name -/
+theorem C07_source_structure_lines (name : Text) (kids : List Tmpl) (level sq : Nat) (body : Text)
+    (hb : printL kids (level + 1) sq = .ok body) :
+    ∃ l0 l1, runItem (linesEnv level name) Gen.src_dds_structure_lines "@line0" = .ok (.str (codesOf l0)) ∧
+      runItem (linesEnv level name) Gen.src_dds_structure_lines "@line1" = .ok (.str (codesOf l1)) ∧
+      printT (.struct name kids) level sq = .ok (l0 ++ body ++ l1) := by
+  refine ⟨_, _, (src_dds_structure_lines_eq level name).1, (src_dds_structure_lines_eq level name).2, ?_⟩
+  rw [printT, hb]
+
+open MiniPy DdsSrc in
+/-- `_sequencetype` likewise (the members are printed one sequence level deeper) -/
+theorem C07_source_sequence_lines (name : Text) (kids : List Tmpl) (level sq : Nat) (body : Text)
+    (hb : printL kids (level + 1) (sq + 1) = .ok body) :
+    ∃ l0 l1, runItem (linesEnv level name) Gen.src_dds_sequence_lines "@line0" = .ok (.str (codesOf l0)) ∧
+      runItem (linesEnv level name) Gen.src_dds_sequence_lines "@line1" = .ok (.str (codesOf l1)) ∧
+      printT (.seq name kids) level sq = .ok (l0 ++ body ++ l1) := by
+  refine ⟨_, _, (src_dds_sequence_lines_eq level name).1, (src_dds_sequence_lines_eq level name).2, ?_⟩
+  rw [printT, hb]
+
+open MiniPy DdsSrc in
+/-- the dataset: `dds(dataset)` is called with level 0 -/
+theorem C07_source_dataset_lines (d : Dataset) (body : Text) (hb : printL d.kids 1 0 = .ok body) :
+    ∃ l0 l1, runItem (linesEnv 0 d.name) Gen.src_dds_dataset_lines "@line0" = .ok (.str (codesOf l0)) ∧
+      runItem (linesEnv 0 d.name) Gen.src_dds_dataset_lines "@line1" = .ok (.str (codesOf l1)) ∧
+      printDs d = .ok (l0 ++ body ++ l1) := by
+  refine ⟨_, _, (src_dds_dataset_lines_eq 0 d.name).1, (src_dds_dataset_lines_eq 0 d.name).2, ?_⟩
+  rw [printDs, hb]
+  rfl
+
+open MiniPy DdsSrc in
+/-- `_gridtype`: `Grid {`, `Array:` and `Maps:` one level deeper, the closing line; around the array and the maps -/
+theorem C07_source_grid_lines (name : Text) (a : BaseV) (maps : List BaseV) (level sq : Nat) (sa sm : Text)
+    (ha : printBase a (level + 2) sq = .ok sa) (hm : printBases maps (level + 2) sq = .ok sm) :
+    ∃ l0 l1 l2 l3, runItem (linesEnv level name) Gen.src_dds_grid_lines "@line0" = .ok (.str (codesOf l0)) ∧
+      runItem (linesEnv level name) Gen.src_dds_grid_lines "@line1" = .ok (.str (codesOf l1)) ∧
+      runItem (linesEnv level name) Gen.src_dds_grid_lines "@line2" = .ok (.str (codesOf l2)) ∧
+      runItem (linesEnv level name) Gen.src_dds_grid_lines "@line3" = .ok (.str (codesOf l3)) ∧
+      printT (.grid name (a :: maps)) level sq = .ok (l0 ++ l1 ++ sa ++ l2 ++ sm ++ l3) := by
+  obtain ⟨h0, h1, h2, h3⟩ := src_dds_grid_lines_eq level name
+  refine ⟨_, _, _, _, h0, h1, h2, h3, ?_⟩
+  rw [printT, printGrid, ha, hm]
+  simp only [List.append_assoc]
+
+open MiniPy DdsSrc in
+/-- `_basetype`, the shape text: for every base variable and sequence depth the interpreted statements before the
+    `yield` leave the model's `shapeText` in `shape` -/
+theorem C07_source_base_shape (b : BaseV) (sq : Nat) :
+    runItem (shapeEnv b sq) Gen.src_dds_base_shape "shape" = .ok (.str (codesOf (shapeText b sq))) :=
+  src_dds_base_shape_eq b sq
+
+open MiniPy DdsSrc in
+/-- `_basetype`, the line: with the table entry `ty` of the variable's type and the shape text just computed, the
+    interpreted `yield` is the line `printBase` prints -/
+theorem C07_source_base_line (b : BaseV) (level sq : Nat) (ty : Text)
+    (ht : lookup Gen.NUMPY_TO_DAP2_TYPEMAP (dtypeChar b.dt) = some ty) :
+    ∃ line, runItem (("@type", .str (codesOf ty)) :: ("shape", .str (codesOf (shapeText b sq))) :: linesEnv level b.name)
+        Gen.src_dds_base_line "@line0" = .ok (.str (codesOf line)) ∧
+      printBase b level sq = .ok line := by
+  refine ⟨_, src_dds_base_line_eq level b.name ty (shapeText b sq), ?_⟩
+  rw [printBase, ht]
+
+section SourceExamples
+open MiniPy DdsSrc
+
+local instance decEqMiniPyResult {α : Type} [DecidableEq α] : DecidableEq (Except MiniPy.Err α)
+  | .ok a, .ok b => if h : a = b then isTrue (by rw [h]) else isFalse (by intro h'; cases h'; exact h rfl)
+  | .error a, .error b => if h : a = b then isTrue (by rw [h]) else isFalse (by intro h'; cases h'; exact h rfl)
+  | .ok _, .error _ => isFalse (by intro h; cases h)
+  | .error _, .ok _ => isFalse (by intro h; cases h)
+
+example : runItem (linesEnv 1 "s".toList) Gen.src_dds_structure_lines "@line1"
+    = .ok (.str (codesOf "    } s;\n".toList)) := by decide +kernel
+example : runItem (linesEnv 1 "g".toList) Gen.src_dds_grid_lines "@line2"
+    = .ok (.str (codesOf "        Maps:\n".toList)) := by decide +kernel
+example : runItem (shapeEnv ⟨"x".toList, "f".toList, [5, 3], [], false⟩ 1) Gen.src_dds_base_shape "shape"
+    = .ok (.str (codesOf "[x = 3]".toList)) := by decide +kernel
+example : runItem (shapeEnv ⟨"x".toList, "f".toList, [2, 3], [], true⟩ 0) Gen.src_dds_base_shape "shape"
+    = .ok (.str (codesOf "[2][3]".toList)) := by decide +kernel
+example : runItem (("@type", .str (codesOf "Float32".toList)) :: ("shape", .str (codesOf "[x = 3]".toList)) ::
+      linesEnv 2 "x".toList) Gen.src_dds_base_line "@line0"
+    = .ok (.str (codesOf "        Float32 x[x = 3];\n".toList)) := by decide +kernel
+
+end SourceExamples
 
 end Pydap.C07
